@@ -7,6 +7,8 @@ package hmac
 
 import (
 	"crypto/hmac"
+	_ "crypto/sha256" // links SHA-256, used by HMAC 256/64 and HMAC 256/256
+	_ "crypto/sha512" // links SHA-384 and SHA-512, used by HMAC 384/384 and HMAC 512/512
 	"fmt"
 	"hash"
 
